@@ -22,7 +22,7 @@ def view (s : State) (r : String) : String :=
     | some .protocolViolation => "PROTOCOL_VIOLATION"
     | some .aeadLimitReached => "AEAD_LIMIT_REACHED"
     | none => "-"
-  s!"{r} | ph={bit s.phase} cur={optNat s.cur} prev={prev} next={optNat s.next} swk={s.swk} rx={s.rxPacket} authed={s.authed} fail={s.fail} dd={s.dedup.next}:{s.dedup.window} kd={optNat s.kd} st={st} err={err}"
+  s!"{r} | ph={bit s.phase} cur={optNat s.cur} prev={prev} next={optNat s.next} swk={s.swk} npn={s.nextPn} la={optNat s.largestAcked} rx={s.rxPacket} authed={s.authed} fail={s.fail} dd={s.dedup.next}:{s.dedup.window} kd={optNat s.kd} st={st} err={err}"
 
 def parseBit : String → Option Bool
   | "0" => some false
@@ -59,6 +59,12 @@ def keyupd (s : State) : List String → State × String
     | _, _, _ => (s, "bad-op")
   | ["rx", pn, b, g] => rx s pn b g false
   | ["rx", pn, b, g, "rsv"] => rx s pn b g true
+  | ["ackd", pn] =>
+    match pn.toNat? with
+    | some pn => match ackd s pn with
+      | some s' => (s', view s' "ok")
+      | none => (s, "bad-op")
+    | none => (s, "bad-op")
   | ["update"] =>
     match forceKeyUpdate s with
     | some s' => (s', view s' "ok")
